@@ -174,15 +174,11 @@ func TestC05(t *testing.T) {
 			case a := <-n.Arrivals:
 				h, _ := serve(a, 0)
 				n.Deliver(h.Resp, a.Src)
-			case <-n.Done:
-				return
-			case <-time.After(n.Timeout + time.Second):
+			case <-n.cur:
+				n.cur = nil
+			case <-time.After(n.Timeout + 2*time.Second):
 				t.Fatal("client call does not end")
 			}
-		}
-		select {
-		case <-n.Done:
-		default:
 		}
 	}
 	drain := func() {
@@ -229,7 +225,7 @@ func TestC05(t *testing.T) {
 		var a Arrival
 		select {
 		case a = <-n.Arrivals:
-		case <-time.After(time.Second):
+		case <-time.After(3 * time.Second):
 			t.Fatal("client sent no request")
 		}
 		h, req := serve(a, ci)
